@@ -40,6 +40,7 @@ class _Env:
         self.last_assigning_clock = None
         self.flow_ok = True
         self.expiry = set()
+        self.interrupts = False
         self.nstat = 0               # successful stat calls so far
         self.parent = {}             # union-find over mtime objects: two objects are merged once the code has compared them equal
         self.latest = {}             # class root -> index of the most recent stat whose result belongs to the class
@@ -81,7 +82,10 @@ class _Env:
             raise core.PathAbort()
         # the automaton state is (call, call site, which earlier stat results the code still remembers): the last component is
         # the only piece of environment history the code keeps in local variables and branches on later
-        site = self.site() + (("mem", self.remembered()),)
+        # ... plus the exception being handled / propagated, if any: a `finally` block entered by an exception continues differently
+        # from the same block entered normally
+        et = sys.exc_info()[0]
+        site = self.site() + (("mem", self.remembered() + ((et.__name__,) if et is not None else ())),)
         ex = core.cur()
         chosen = outcomes[-1]
         for o in outcomes[:-1]:
@@ -226,7 +230,11 @@ class _TIME:
         return c
 
     def sleep(self, s):
-        _env.out("sleep", "ok")
+        # a waiting worker may be interrupted (Ctrl-C / SIGINT -> KeyboardInterrupt) while it sleeps
+        if _env.interrupts and _env.out("sleep", "interrupt", "ok") == "interrupt":
+            raise KeyboardInterrupt()
+        if not _env.interrupts:
+            _env.out("sleep", "ok")
 
 
 def _install_extraction_stubs():
@@ -235,8 +243,9 @@ def _install_extraction_stubs():
     jf.open = lambda p, mode: (_env.out("open_append", "ok"), _WF())[1]
 
 
-def extract(lock_cls_name, maxcalls=22):
-    """returns dict(nodes, edges, root, assign_sites, conflicts, paths)"""
+def extract(lock_cls_name, maxcalls=22, interrupts=False):
+    """returns dict(nodes, edges, root, assign_sites, conflicts, paths); interrupts=True adds the outcome "KeyboardInterrupt raised
+    by time.sleep" (a waiting worker interrupted by SIGINT) and the terminal END_INTR"""
     global _env
     warnings.simplefilter("ignore")
     _install_extraction_stubs()
@@ -247,6 +256,7 @@ def extract(lock_cls_name, maxcalls=22):
     def body():
         global _env
         _env = _Env(maxcalls)
+        _env.interrupts = interrupts
         _env.last_clock_by_site = {}
         be = jf.JournalFileBackend.__new__(jf.JournalFileBackend)
         be._file_path = "/x/j.log"
@@ -257,6 +267,8 @@ def extract(lock_cls_name, maxcalls=22):
             be.append_logs([{"op_code": 0}])
         except RuntimeError:
             end = "END_RAISED"
+        except KeyboardInterrupt:
+            end = "END_INTR"
         except core.PathAbort:
             traces.add(tuple(_env.trace) + (("END_CUT", "", ()),))
             info["assign"] |= _env.assign_sites
@@ -331,7 +343,7 @@ def bmc(aut, K, depth, crash, rounds=1, timeout_ms=600000, hold_bound=2, step_de
     def call_of(n):
         return inv[n][0]
 
-    def local_chain(n, tmp, last, nowv, hs, fuel=14):
+    def local_chain(n, tmp, last, nowv, hs, fuel=14, intr=None):
         """symbolically run the local calls starting at node n; returns (pc, tmp, last) expressions at the next shared call / terminal.
         hs = the generations seen by this process's latest successful stats (hs[0] = most recent)"""
         if fuel == 0:
@@ -344,25 +356,30 @@ def bmc(aut, K, depth, crash, rounds=1, timeout_ms=600000, hold_bound=2, step_de
             return V(n), tmp, last
         if c == "mono":
             site = tuple(x for x in inv[n][1] if not (isinstance(x, tuple) and x and x[0] == "mem"))
-            return local_chain(es.get(("mono", "ok"), CUT), nowv, (nowv if site in assign else last), nowv, hs, fuel - 1)
+            return local_chain(es.get(("mono", "ok"), CUT), nowv, (nowv if site in assign else last), nowv, hs, fuel - 1, intr)
         if c == "expired":
             op, g = aut["expiry"][0]
             gt = g // TICK
             cond = {"gt": z3.UGT, "ge": z3.UGE, "lt": z3.ULT, "le": z3.ULE}[op](tmp - last, gt)
-            y = local_chain(es.get(("expired", "yes"), CUT), tmp, last, nowv, hs, fuel - 1)
-            n_ = local_chain(es.get(("expired", "no"), CUT), tmp, last, nowv, hs, fuel - 1)
+            y = local_chain(es.get(("expired", "yes"), CUT), tmp, last, nowv, hs, fuel - 1, intr)
+            n_ = local_chain(es.get(("expired", "no"), CUT), tmp, last, nowv, hs, fuel - 1, intr)
             return z3.If(cond, y[0], n_[0]), z3.If(cond, y[1], n_[1]), z3.If(cond, y[2], n_[2])
         if c.startswith("mtcmp:"):
             a, b = (int(x) for x in c.split(":")[1:])
             if a >= HIST or b >= HIST:
                 return V(CUT), tmp, last
             cond = hs[a] != hs[b]
-            y = local_chain(es.get((c, "ne"), CUT), tmp, last, nowv, hs, fuel - 1)
-            n_ = local_chain(es.get((c, "eq"), CUT), tmp, last, nowv, hs, fuel - 1)
+            y = local_chain(es.get((c, "ne"), CUT), tmp, last, nowv, hs, fuel - 1, intr)
+            n_ = local_chain(es.get((c, "eq"), CUT), tmp, last, nowv, hs, fuel - 1, intr)
             return z3.If(cond, y[0], n_[0]), z3.If(cond, y[1], n_[1]), z3.If(cond, y[2], n_[2])
-        return local_chain(es.get((c, "ok"), CUT), tmp, last, nowv, hs, fuel - 1)
+        if (c, "interrupt") in es and intr is not None:
+            y = local_chain(es[(c, "interrupt")], tmp, last, nowv, hs, fuel - 1, None)        # at most one interrupt per macro step
+            n_ = local_chain(es.get((c, "ok"), CUT), tmp, last, nowv, hs, fuel - 1, intr)
+            return z3.If(intr, y[0], n_[0]), z3.If(intr, y[1], n_[1]), z3.If(intr, y[2], n_[2])
+        return local_chain(es.get((c, "ok"), CUT), tmp, last, nowv, hs, fuel - 1, intr)
     term_ok = [n for k, n in nodes.items() if k[0] == "END_OK"]
     term_raised = [n for k, n in nodes.items() if k[0] == "END_RAISED"]
+    term_intr = [n for k, n in nodes.items() if k[0] == "END_INTR"]
     shared_nodes = [n for n in edges if call_of(n) in SHARED]
 
     def bv(name, w):
@@ -380,6 +397,7 @@ def bmc(aut, K, depth, crash, rounds=1, timeout_ms=600000, hold_bound=2, step_de
     lastact = [[bv(f"lastact_{p}_{t}", TW) for t in range(T + 1)] for p in range(K)]
     now = [bv(f"now_{t}", TW) for t in range(T + 1)]
     sched = [bv(f"sched_{t}", KW) for t in range(T)]
+    intr = [z3.Bool(f"intr_{t}") for t in range(T)]          # the process scheduled at step t is interrupted at its next sleep
     s.add(lock[0] == bool(crash), gen[0] == 0, now[0] == 0)
     # the local prefix of acquire() (clock read before the first create) - evaluated when a round starts
     for p in range(K):
@@ -415,7 +433,7 @@ def bmc(aut, K, depth, crash, rounds=1, timeout_ms=600000, hold_bound=2, step_de
                     _, tmp_s, last_s = local_chain(root, tmp[p][t], last[p][t], now[t + 1], hs)
                     tmp_in = z3.If(idle[p][t], tmp_s, tmp[p][t])
                     last_in = z3.If(idle[p][t], last_s, last[p][t])
-                    return local_chain(es.get((c, o), CUT), tmp_in, last_in, now[t + 1], hs)
+                    return local_chain(es.get((c, o), CUT), tmp_in, last_in, now[t + 1], hs, intr=intr[t])
 
                 def finish(pcx, tmpx, lastx, seenx, holdx, acqx):
                     """wrap-up: a macro step that reaches END_OK starts the next round (or stops)"""
@@ -448,10 +466,16 @@ def bmc(aut, K, depth, crash, rounds=1, timeout_ms=600000, hold_bound=2, step_de
     viol_raise = z3.Or([pc[p][t] == n for p in range(K) for t in range(T + 1) for n in term_raised]) if term_raised else z3.BoolVal(False)
     cutreach = z3.Or([pc[p][t] == CUT for p in range(K) for t in range(T + 1)])
     alldone = z3.And([pc[p][T] == DONE for p in range(K)])
+    interrupted = z3.Or([pc[p][T] == n for p in range(K) for n in term_intr]) if term_intr else None
+    if not term_intr:
+        s.add(z3.Not(z3.Or(intr)))
     res = {"K": K, "depth": T, "crash": crash, "rounds": rounds, "queries": 0, "solver_s": 0.0, "hold_bound_ticks": hold_bound,
            "step_delay_ticks": step_delay, "tick_seconds": TICK}
     out = {}
-    for name, q in (("mutual_exclusion", viol_mutex), ("release_raises", viol_raise), ("unwinding", cutreach), ("witness_all_done", alldone)):
+    queries = [("mutual_exclusion", viol_mutex), ("release_raises", viol_raise), ("unwinding", cutreach), ("witness_all_done", alldone)]
+    if interrupted is not None:
+        queries.append(("witness_interrupted", interrupted))
+    for name, q in queries:
         t0 = time.time()
         s.push()
         s.add(q)
@@ -459,7 +483,7 @@ def bmc(aut, K, depth, crash, rounds=1, timeout_ms=600000, hold_bound=2, step_de
         res["queries"] += 1
         res["solver_s"] += time.time() - t0
         out[name] = str(r)
-        if r == z3.sat and name != "witness_all_done":
+        if r == z3.sat and not name.startswith("witness_"):
             m = s.model()
             tr = []
             for t in range(T):
@@ -468,7 +492,8 @@ def bmc(aut, K, depth, crash, rounds=1, timeout_ms=600000, hold_bound=2, step_de
                     continue
                 n = m.eval(pc[p][t], model_completion=True).as_long()
                 nv = m.eval(now[t + 1], model_completion=True).as_long()
-                tr.append({"t": t, "p": p, "call": call_of(n) if n in inv else "-", "now": float(nv * TICK), "macro": True})
+                tr.append({"t": t, "p": p, "call": call_of(n) if n in inv else "-", "now": float(nv * TICK), "macro": True,
+                           "interrupt": bool(term_intr) and z3.is_true(m.eval(intr[t], model_completion=True))})
             out[name + "_trace"] = tr
         s.pop()
     res["result"] = out
@@ -593,6 +618,8 @@ def replay(lock_cls_name, trace, K, crash, rounds=1):
 
         def sleep(self, s):
             sync("sleep")
+            if tls.w.pop("interrupt_now", False):
+                raise KeyboardInterrupt()
     saved = (jf.os, jf.time, getattr(jf, "open", None))
     jf.os, jf.time, jf.open = OS(), TIME(), fake_open
     warnings.simplefilter("ignore")
@@ -612,6 +639,8 @@ def replay(lock_cls_name, trace, K, crash, rounds=1):
                         be.append_logs([{"w": wid, "r": r}])
                 except Killed:
                     pass
+                except KeyboardInterrupt:
+                    state["log"].append((wid, "interrupted"))
                 except RuntimeError as e:
                     state["violations"].append(f"worker {wid}: append_logs raised RuntimeError({e})")
                 except BaseException as e:  # noqa
@@ -644,10 +673,13 @@ def replay(lock_cls_name, trace, K, crash, rounds=1):
                 guard += 1
             if not workers[p]["done"]:
                 advance(p)                    # the shared call itself
+            if step.get("interrupt"):
+                workers[p]["interrupt_now"] = True
             guard = 0
             while not workers[p]["done"] and workers[p].get("pending") not in SHARED_REPLAY and guard < 40:
                 advance(p)
                 guard += 1
+            workers[p].pop("interrupt_now", None)
             if state["violations"]:
                 break
         state["kill"] = True
